@@ -1,4 +1,5 @@
 import PyaModel.Core.Fixes
+import PyaModel.Core.NodeCopy
 /-!
 # Spec/FixSpec — what an automatic fix is *supposed* to do (property C16)
 
@@ -277,6 +278,9 @@ structure FixCase where
   /-- the rewritten expression is `"…" % x` with a `%d` conversion, or with a single argument that is not
   a tuple display (so that a tuple value would be unpacked by `%` but not by an f-string) -/
   pctRisky : Bool := false
+  /-- the statement is a `def` / `class` with decorators (its `lineno` is the line of the `def` keyword,
+  the decorator lines lie above it) -/
+  decorated : Bool := false
   deriving Repr
 
 /-- **Class `sharedLine`**: whole lines are replaced, so everything else on them is lost. -/
@@ -288,8 +292,57 @@ def D16_emptyBlock (c : FixCase) : Bool := c.adds == some [] && c.soleInBlock
 /-- **Class `elifHeader`**: the `elif` clause is re-generated from its `If` node as a new `if` statement. -/
 def D16_elifHeader (c : FixCase) : Bool := c.isElif && (match c.adds with | some (_ :: _) => true | _ => false)
 
+/-- **Class `decoratedStmt`**: a decorated `def`/`class` is regenerated *with* its decorators, but only the
+lines from the `def` keyword on are replaced: the old decorator lines stay above the new ones. -/
+def D16_decoratedStmt (c : FixCase) : Bool := c.decorated && (match c.adds with | some (_ :: _) => true | _ => false)
+
 /-- **Class `fstringConversion`**: `use_fstrings` turns `"%d" % x` into `f"{x}"` (no `int()` truncation:
 `"%d" % 2.5 == "2"`, `"%d" % True == "1"`) and `"%s" % t` into `f"{t}"` (a tuple `t` is no longer unpacked). -/
 def D16_fstringConversion (c : FixCase) : Bool := c.pctRisky && (match c.adds with | some (_ :: _) => true | _ => false)
+
+/-! ## Node-level fixes: the tree with exactly one node replaced -/
+
+mutual
+  /-- The tree with the node whose identity is `target` replaced by `r` — everything else, including the
+  `None` entries of list fields, as it was. -/
+  def substTree (target : Nat) (r : Tree) : Tree → Tree
+    | .mk k i fs => if i == target then r else .mk k i (substFields target r fs)
+  def substFields (target : Nat) (r : Tree) : FieldList → FieldList
+    | .nil => .nil
+    | .cons n f rest => .cons n (substField target r f) (substFields target r rest)
+  def substField (target : Nat) (r : Tree) : Field → Field
+    | .leaf v => .leaf v
+    | .child t => .child (substTree target r t)
+    | .many items => .many (substItems target r items)
+  def substItems (target : Nat) (r : Tree) : ItemList → ItemList
+    | .nil => .nil
+    | .cons .none rest => .cons .none (substItems target r rest)
+    | .cons (.val v) rest => .cons (.val v) (substItems target r rest)
+    | .cons (.tree t) rest => .cons (.tree (substTree target r t)) (substItems target r rest)
+end
+
+mutual
+  /-- A node with identity `target` occurs in the tree. -/
+  def occursTree (target : Nat) : Tree → Bool
+    | .mk _ i fs => i == target || occursFields target fs
+  def occursFields (target : Nat) : FieldList → Bool
+    | .nil => false
+    | .cons _ f rest => occursField target f || occursFields target rest
+  def occursField (target : Nat) : Field → Bool
+    | .leaf _ => false
+    | .child t => occursTree target t
+    | .many items => occursItems target items
+  def occursItems (target : Nat) : ItemList → Bool
+    | .nil => false
+    | .cons .none rest => occursItems target rest
+    | .cons (.val _) rest => occursItems target rest
+    | .cons (.tree t) rest => occursTree target t || occursItems target rest
+end
+
+/-- Which entries of a list field are `None` placeholders (`Dict.keys` for `**m`, `kw_defaults`). -/
+def noneMask : ItemList → List Bool
+  | .nil => []
+  | .cons .none rest => true :: noneMask rest
+  | .cons _ rest => false :: noneMask rest
 
 end Pya.C16
